@@ -10,12 +10,13 @@ import (
 // The interpreter (interp.go) implements exactly these functions natively; keep the two in step.
 // deep(n, f) only adds n call-stack levels (return() runs one level, callbacks two levels deeper than next()), so that
 // the call-stack-limit sweep can make exactly those calls overflow; it has no other observable effect.
-const Prelude = `var seq = 0;
-function mk(a, id, n, throwAt, badAt, retMode, pairs) {
+var Prelude = `var seq = 0;
+function mk(a, id, n, throwAt, badAt, retMode, pairs, tdn, tdr, tm) {
   var inst = ++seq, j = 0;
   ev("M", a, id, inst);
   var it = {
     next: function() {
+      nest(tdn, tm);
       j++;
       if (j === throwAt) { ev("Nt", a, id, inst, j); throw 30000 + id * 16 + j; }
       if (j === badAt) { ev("Nb", a, id, inst, j); return 5; }
@@ -27,6 +28,7 @@ function mk(a, id, n, throwAt, badAt, retMode, pairs) {
   };
   it[Symbol.iterator] = function() { return this; };
   if (retMode) it.return = function() { return deep(1, function() {
+    nest(tdr, tm);
     if (retMode === 2) { ev("Rt", a, id, inst); throw 40000 + id; }
     if (retMode === 3) { ev("Rb", a, id, inst); return 7; }
     ev("Ro", a, id, inst);
@@ -41,7 +43,30 @@ function mf(a, id, at) { var c = 0; return function(v) { return deep(2, function
 function thrS(a, id, at) { var c = 0; return class extends Set { add(v) { deep(2, function() { if (++c === at) { ev("AD", a, id, c); throw 61000 + id; } }); return super.add(v); } }; }
 function thrM(a, id, at) { var c = 0; return class extends Map { set(k, v) { deep(2, function() { if (++c === at) { ev("AD", a, id, c); throw 61000 + id; } }); return super.set(k, v); } }; }
 function thrower(a, id) { return { set p(v) { deep(2, function() { ev("SX", a, id); throw 62000 + id; }); } }; }
-`
+function nestR(n, thr) { try { if (n > 1) nestR(n - 1, thr); else if (thr) throw 77; } finally { } }
+` + flatNest(9)
+
+// flatNest builds nest(n, m): n nested try statements at the deepest point (the outermost has a catch clause, the others a
+// finally block); m bit 0: the innermost level throws (caught by the outermost); m bit 1: nesting by recursion (nestR), else
+// written out flat in one function (up to max levels). No events, no result: its only effect is on the engine's try stack.
+func flatNest(max int) string {
+	var b strings.Builder
+	b.WriteString("function nest(n, m) {\n  if (!(n > 0)) return;\n  var thr = (m & 1) === 1;\n  try {\n    if (m & 2) { if (n > 1) nestR(n - 1, thr); else if (thr) throw 77; }\n    else {\n")
+	var level func(i int)
+	level = func(i int) {
+		ind := strings.Repeat("  ", i+2)
+		if i >= max {
+			b.WriteString(ind + "if (thr) throw 77;\n")
+			return
+		}
+		fmt.Fprintf(&b, "%sif (n > %d) {\n%s  try {\n", ind, i, ind)
+		level(i + 1)
+		fmt.Fprintf(&b, "%s  } finally { }\n%s} else if (thr) throw 77;\n", ind, ind)
+	}
+	level(1)
+	b.WriteString("    }\n  } catch (e) { }\n}\n")
+	return b.String()
+}
 
 // Mode of the printed program.
 const (
@@ -72,6 +97,9 @@ func iterSrc(n *Node) string {
 	pr := 0
 	if it.Pairs {
 		pr = 1
+	}
+	if it.TDN != 0 || it.TDR != 0 {
+		return fmt.Sprintf("mk(a, %d, %d, %d, %d, %d, %d, %d, %d, %d)", n.ID, it.N, it.ThrowAt, it.BadAt, it.Ret, pr, it.TDN, it.TDR, it.TM)
 	}
 	return fmt.Sprintf("mk(a, %d, %d, %d, %d, %d, %d)", n.ID, it.N, it.ThrowAt, it.BadAt, it.Ret, pr)
 }
@@ -292,6 +320,8 @@ func (p *printer) stmt(n *Node, d int, labels string) {
 		p.linef(`var _ = ev("Y", a, %d);`, id)
 		p.linef("%syield %d;", labels, 20000+id)
 		p.linef(`var _ = ev("Y-", a, %d);`, id)
+	case Nest:
+		p.linef("%svar _ = nest(%d, %d);", labels, n.TD, n.TM)
 	case GenNew:
 		p.linef("%svar g%d = gen(a, %d, %d, G%d);", labels, n.Var, id, n.Gen, n.Gen)
 	case GenOp:
